@@ -271,9 +271,22 @@ def lineSection (row : Str) (idx : Nat) (o c : Char) : Option (Str × Nat) :=
     | none, some b => if c1 == 0 then some ([], idx) else some (r.take b, b + idx)
     | none, none => if c1 == 0 then some ([], idx) else some (r.dropLast, idx - 1)
 
-/-- `SchemaLoaderWiki._create_entry` on a cleaned row: (name, attributes, description).
+/-- the description both text readers keep (since fix 391436a):
+`if d and d.strip(): tag_entry.description = d.strip()` — a blank text is *no description* -/
+def readDesc (d : Str) : Option Str := if (strip d).isEmpty then none else some (strip d)
+
+/-- the readers before fix 391436a: `if d: tag_entry.description = d.strip()` — a blank, non-empty text became
+the empty string `''`, which no writer emits (`blank_description_counterexample`) -/
+def readDescLegacy (d : Str) : Option Str := if d.isEmpty then none else some (strip d)
+
+/-- a description as every reader hands it back: blank = absent, otherwise stripped.  The identity exactly on
+the descriptions a loaded schema can hold (`descNormal`). -/
+def normDesc (desc : Option Str) : Option Str := desc.bind readDesc
+
+/-- `SchemaLoaderWiki._create_entry` on a cleaned row, parametrised by the description rule:
+(name, attributes, description).
 The name may be empty (`extend here` rows); the tag section rejects that, the other sections do not. -/
-def readEntry (row : Str) : Except WErr (Str × Attrs × Option Str) :=
+def readEntryWith (descOf : Str → Option Str) (row : Str) : Except WErr (Str × Attrs × Option Str) :=
   match getTagName row with
   | none => .error .noName
   | some (name, idx) =>
@@ -286,7 +299,13 @@ def readEntry (row : Str) : Except WErr (Str × Attrs × Option Str) :=
       | .ok attrs =>
         match lineSection row idx2 '[' ']' with
         | none => .error .descDelims
-        | some (d, _) => .ok (name, attrs, if d.isEmpty then none else some (strip d))
+        | some (d, _) => .ok (name, attrs, descOf d)
+
+/-- `SchemaLoaderWiki._create_entry` as it is now (`if node_desc and node_desc.strip():`) -/
+def readEntry (row : Str) : Except WErr (Str × Attrs × Option Str) := readEntryWith readDesc row
+
+/-- `_create_entry` before fix 391436a (`if node_desc:`) -/
+def readEntryLegacy (row : Str) : Except WErr (Str × Attrs × Option Str) := readEntryWith readDescLegacy row
 
 /-- `_get_tag_level`: number of leading `*` (0 counts as 1); `none` = IndexError on a row of only `*` -/
 def tagLevel (row : Str) : Option Nat :=
@@ -347,8 +366,8 @@ def ofWikiFrom : List Str → List Str → Except WErr (List Entry)
 
 def ofWiki (lines : List Str) : Except WErr (List Entry) := ofWikiFrom lines []
 
-/-- the entry with its description as every reader hands it back (`description.strip()`) -/
-def stripDesc (e : Entry) : Entry := { e with desc := e.desc.map strip }
+/-- the entry with its description as every reader hands it back (`normDesc`: blank = absent, else stripped) -/
+def normEntry (e : Entry) : Entry := { e with desc := normDesc e.desc }
 
 /-- every tag's parent path is a prefix of the previous tag's path (preorder listing, `all_entries` order) -/
 def Preorder : List Str → List Entry → Bool
@@ -384,7 +403,9 @@ def nameWF (n : Str) : Bool := !n.isEmpty && trimmed n && n.all fun c => !lineDe
 def noTag (s : Str) : Bool := !hasSub tagOpen s && !hasSub tagClose s
 
 /-- descriptions on a wiki line: non-empty, no brackets or braces, no literal nowiki tag.
-(Leading / trailing blanks are *allowed* here: see `line_counterexample`.) -/
+(Leading / trailing blanks are *allowed* here, see `line_counterexample`; so is an all-blank description such as
+`[ ]`, which the readers return as *no description* since fix 391436a.  The empty description `''` stays excluded:
+every writer treats it as absent and no reader produces it, `loaded_descriptions_normal`.) -/
 def descWF : Option Str → Bool
   | none => true
   | some d => !d.isEmpty && noTag d && d.all fun c => c != '{' && c != '}' && c != '[' && c != ']'
@@ -392,6 +413,12 @@ def descWF : Option Str → Bool
 def descTrimmed : Option Str → Bool
   | none => true
   | some d => trimmed d
+
+/-- the descriptions a loaded schema can hold since fix 391436a: absent, or non-empty and trimmed
+(exactly the fixed points of `normDesc`) -/
+def descNormal : Option Str → Bool
+  | none => true
+  | some d => !d.isEmpty && trimmed d
 
 /-- the row as the reader sees it after `cleanLine` (used to state the reserved-text conditions) -/
 def rowBody (level : Nat) (short ex : Str) : Str :=
@@ -629,7 +656,7 @@ def ofTsvFrom : List TsvRow → List (Str × List Str) → Except TErr (List Ent
       | .error _ => .error .crash
       | .ok attrs =>
         let attrs := if r.hedId.isEmpty then attrs else dictPut attrs hedIdKey (splitOn ',' r.hedId)
-        let desc := if r.desc.isEmpty then none else some (strip r.desc)
+        let desc := readDesc r.desc      -- `if description and description.strip():` (fix 391436a)
         if long == ['#'] then .error .crash      -- `_get_tag_forms("#")` is empty: IndexError in `_create_tag_entry`
         else if parents.isNone then
           (if hasKey attrs rootedKey then .error .needsPartner else .error .unresolvedParent)
